@@ -75,6 +75,15 @@ fcppt::optional::object<std::basic_string<Out>> codecvt(
       return optional_return_type{return_type(_string.begin(), _string.end())};
     case std::codecvt_base::error:
       return optional_return_type{};
+    case std::codecvt_base::ok:
+      if (from_next == fcppt::container::data_end(_string))
+      {
+        return optional_return_type{return_type(buf.begin(), buf.end())};
+      }
+      // Some facets report ok although input is left, if the output has been filled
+      // completely (libstdc++ does this after an embedded null character). This is
+      // the same situation as partial.
+      [[fallthrough]];
     case std::codecvt_base::partial:
       if (written == 0U)
       {
@@ -95,8 +104,6 @@ fcppt::optional::object<std::basic_string<Out>> codecvt(
 
       buf.resize_write_area(buf.read_size() * 2U);
       continue;
-    case std::codecvt_base::ok:
-      return optional_return_type{return_type(buf.begin(), buf.end())};
     }
 
     return optional_return_type{};
